@@ -18,6 +18,15 @@ Clauses (obligation names  C19/<solver>/<clause>):
   second group (powell, bfgs, lbfgs with objective_fn):  ensures:objective==f(solution)
   all twelve:   reproducible:run-twice   (fixed seed, or seedless solver)
   an exception / time-out in a solver on these (documented-domain) inputs is reported as  returns-a-result
+
+Round-2 families (generators in checks/search_round2.py, same clauses, verdict from the recorded trace of the run itself, so
+no size limit from an oracle): budget ladder (33 .. 1000 / 5000 planted in every size-like parameter; bayesian_opt 66 .. 130 /
+300), dimension ladder (1 .. 30 variables), option ladder (every keyword at default and extreme values, seedless runs),
+numerics (2^-40 gaps, ties, kinks, one-sided subgradients, forward differences), planted best (a dry run finds the j-th
+point the solver evaluates; the judged objective makes exactly that point the best candidate), and history mode:
+      reproducible:history-vs-fresh-objects   a call on re-used argument objects edited in place == the call on fresh objects
+      reproducible:same-call-repeated         identical consecutive calls of a history agree
+      reproducible:history-vs-fresh-process   ... and agree with a new interpreter
 """
 from __future__ import annotations
 
@@ -27,6 +36,7 @@ import signal
 
 from oracles.search_books import (Recorder, Ring, gen_points, judge_books, judge_bounds, judge_point, make_gradient,
                                   make_objective, nontrivial, same, snap)
+from checks import search_round2 as R2
 from vf.core import Ctx, canon, digest, use_repo
 from vf.pool import pmap
 
@@ -153,7 +163,7 @@ def _call(case, rec, minimize, shared=None):
     kw = dict(minimize=minimize, on_progress=cb, progress_interval=interval)
     if case.get("bare"):  # option ladder: leave on_progress / progress_interval at their defaults
         kw = dict(minimize=minimize)
-    if case.get("bare") == "all":  # ... and minimize too (only for minimize=True cases)
+    if case.get("bare") == "all" and minimize:  # ... and minimize too
         kw = {}
     env = _env(shared)
 
@@ -361,20 +371,50 @@ def _summary(r):
     return canon([r["solution"], r["objective"], r["iterations"], r["evaluations"], r["status"]])
 
 
+def _books(case, r):
+    """The per-run clauses of the statement for one finished run."""
+    s = case["solver"]
+    sign = 1 if r["minimize"] else -1
+    if s in FIRST:
+        bad = judge_books(sign, r["objective"], r["pure"], r["trace"], r["starts"], r["evaluations"])
+        if s in BOUNDED:
+            bad += judge_bounds(r["solution"], r["bounds"])
+        return bad
+    return judge_point(r["objective"], r["pure"])
+
+
+def resolve_plant(case):
+    """case["plant"] = {"at": j, "depth": D}: a dry run on the objective as given finds the j-th point the solver evaluates;
+    the case that is judged has the objective shifted by D (towards 'better' in the case's sense) at exactly that point.
+    Up to call j both runs see the same values, so the solver evaluates that point again - now the best candidate by
+    D - and then has the rest of its budget to forget it."""
+    plant = case.get("plant")
+    if not plant:
+        return case
+    bare = {k: v for k, v in case.items() if k != "plant"}
+    dry = execute(bare)
+    if "error" in dry or not dry["trace"]:
+        return bare
+    x = dry["trace"][plant["at"] % len(dry["trace"])][0]
+    d = -plant["depth"] if case["minimize"] else plant["depth"]
+    return dict(bare, obj=dict(case["obj"], pit={"x": x, "d": d}))
+
+
 def judge_case(case):
     """-> (list of (clause, detail), non-trivial?)"""
+    if "history" in case:
+        return judge_history(case)
+    case = resolve_plant(case)
     s = case["solver"]
     r = execute(case)
     if "error" in r:
         return [("returns-a-result", r["error"])], False
     sign = 1 if r["minimize"] else -1
-    bad = []
-    if s in FIRST:
-        bad += judge_books(sign, r["objective"], r["pure"], r["trace"], r["starts"], r["evaluations"])
-        if s in BOUNDED:
-            bad += judge_bounds(r["solution"], r["bounds"])
-    else:
-        bad += judge_point(r["objective"], r["pure"])
+    bad = _books(case, r)
+    if case.get("seedless") or case.get("runs") == 1:
+        # no seed given: nothing is promised about a second run; runs == 1: a very long run (bayesian_opt beyond 130
+        # evaluations) whose repetition and mirror image are left to the shorter cases of the same ladder
+        return bad, nontrivial(sign, r["trace"])
     r2 = execute(case)
     if "error" in r2 or _summary(r2) != _summary(r):
         bad.append(("reproducible:run-twice", f"first run {_summary(r)}, second run {r2.get('error') or _summary(r2)}"))
@@ -389,16 +429,91 @@ def judge_case(case):
     return bad, nontrivial(sign, r["trace"])
 
 
+def judge_history(h, fresh_process=None):
+    """Calls in one process on the same argument objects, edited in place between the calls.  Every call is judged by
+    its own books; it must give what the same call gives on fresh objects (the solvers are functions of their
+    arguments), what the identical previous call gave, and (fresh_process: step -> summary) what a new process gives."""
+    shared: dict = {}
+    bad, nt, prev = [], False, None
+    for k, step in enumerate(h["history"]):
+        r = execute(step, shared=shared)
+        if "error" in r:
+            bad.append(("returns-a-result", f"call #{k} of the history: {r['error']}"))
+            prev = None
+            continue
+        bad += [(cl, f"call #{k} of the history: {d}") for cl, d in _books(step, r)]
+        nt = nt or nontrivial(1 if r["minimize"] else -1, r["trace"])
+        f = execute(step)
+        if "error" in f or _summary(f) != _summary(r):
+            bad.append(("reproducible:history-vs-fresh-objects",
+                        f"call #{k} on the re-used (edited in place) argument objects gave {_summary(r)}, the same call on "
+                        f"fresh objects {f.get('error') or _summary(f)}"))
+        if prev is not None and canon(prev[0]) == canon(step) and prev[1] != _summary(r):
+            bad.append(("reproducible:same-call-repeated", f"call #{k - 1} gave {prev[1]}, the identical call #{k} {_summary(r)}"))
+        if fresh_process is not None and fresh_process.get(canon(step), _summary(r)) != _summary(r):
+            bad.append(("reproducible:history-vs-fresh-process",
+                        f"call #{k} gave {_summary(r)} inside the history, {fresh_process[canon(step)]} in a fresh process"))
+        prev = (step, _summary(r))
+    return bad, nt
+
+
+def fresh_process_summaries(cases):
+    """Run every case once in ONE new interpreter (python -m checks.C19 reads the cases from stdin)."""
+    import json
+    import os
+    import subprocess
+    import sys
+    here = os.path.dirname(os.path.dirname(os.path.abspath(__file__)))
+    uniq = {canon(c): c for c in cases}
+    p = subprocess.run([sys.executable, "-m", "checks.C19"], input=json.dumps(list(uniq.values())), capture_output=True,
+                       text=True, cwd=here)
+    if p.returncode != 0:
+        raise RuntimeError(f"fresh-process runner failed: {p.stderr[-400:]}")
+    return dict(zip(uniq.keys(), json.loads(p.stdout)))
+
+
+def _fresh_main():
+    import json
+    import sys
+    use_repo()
+    out = []
+    for case in json.load(sys.stdin):
+        r = execute(case)
+        out.append(r["error"] if "error" in r else _summary(r))
+    json.dump(out, sys.stdout)
+
+
+def _count_families(cases):
+    out: dict[str, int] = {}
+    for c in cases:
+        fam = c.get("family", "small-scope").split(":")[0] + ("+planted-best" if "plant" in c else "")
+        out[fam] = out.get(fam, 0) + 1
+    return out
+
+
+def _heavy(case):
+    c = case.get("cfg") or {}
+    if case["solver"] == "bayesian_opt":
+        return c.get("max_iter", 50) >= 40
+    return c.get("max_iter", 0) >= 1000 or max(c.get("population_size", 0), c.get("n_particles", 0)) >= 500
+
+
 def work(chunk):
-    n, keys, viol = 0, [], []
+    import time
+    n, keys, viol, cpu = 0, [], [], {}
+    hist = [c for c in chunk if "history" in c]
+    fresh = fresh_process_summaries([st for h in hist for st in h["history"]]) if hist else None
     for case in chunk:
-        bad, nt = judge_case(case)
+        t0 = time.process_time()
+        bad, nt = judge_history(case, fresh) if "history" in case else judge_case(case)
+        fam = case.get("family", "small-scope").split(":")[0].split("+")[0]
+        cpu[fam] = cpu.get(fam, 0.0) + time.process_time() - t0
         n += 1
         if nt:
             keys.append(digest(case))
         for clause, detail in bad:
             viol.append((f"C19/{case['solver']}/{clause}", case, detail))
-    return n, keys, viol
+    return n, keys, viol, cpu
 
 
 # =============================================================================== input spaces
@@ -727,37 +842,82 @@ def run(ctx: Ctx):
                                          "exh_continuous (nelder_mead: every stop iteration 1..max_iter)"), v))
     for k, v in list(rd.items()) + list(rc.items()):
         spaces.append((f"{k} random", dict(exhaustive=False, seed=ctx.seed), v))
+    # round-2 families (checks/search_round2.py): sizes / dimensions / options / numerics beyond the small scope, histories
+    rng2 = random.Random(ctx.seed + 2)
+    fams = (("budget ladder", R2.budget_ladder, dict(
+                sizes=list(R2.LADDER_Q if q else R2.LADDER_T), bayesian_opt_sizes=list(R2.BAYES_Q if q else R2.BAYES_T),
+                planted_in="max_iter, evaluation budget (stop), K, neighbourhood, cooldown, max_no_improve, segment_size, operators, "
+                           "population / elite_size / tournament_k, population_size / n_particles / initial points, lbfgs m, n_initial")),
+            ("dimension ladder", R2.dimension_ladder, dict(variables="1,2,3,5,8,13,21,30" if q else "1..30",
+                                                           bayesian_opt_variables="<= 8" if q else "1..30")),
+            ("option ladder", R2.option_ladder, dict(values={s_: {k_: [repr(x) for x in v_] for k_, v_ in o.items()}
+                                                             for s_, o in R2.OPTIONS.items()},
+                                                     modes="one keyword at a time; all keywords at library defaults (on_progress / "
+                                                           "minimize absent); random combinations; seed absent (books only)")),
+            ("numerics", R2.numerics, dict(gaps="2^-40 on top of 1.0 (tables and step functions), bowls quantised to 2^-2..2^-6, "
+                                                "kinks a|x-k| hit exactly from grid starts, one-sided subgradients, forward differences "
+                                                "h in {1e-2, 2^-8, 1e-3, 1e-6}, tol in {0, 2^-41, 2^-40, 2^-39, 1e-9 -/+ 1e-16}")),
+            ("history", R2.histories, dict(calls="A, A, B=edit(A), B, C=edit(B), A, A on the same bounds / x0 / population / start / "
+                                                 "operator-list / weight-list objects and the same objective and callback function "
+                                                 "objects (bayesian_opt: A, B, A, A); each call judged by its books, against fresh "
+                                                 "objects, against the identical previous call, against a fresh process")))
+    for fname, gen, desc in fams:
+        for k, v in gen(rng2, q).items():
+            if v:
+                spaces.append((f"{k} {fname}", dict(exhaustive=False, seed=ctx.seed + 2, **(desc if k == "anneal" else {})), v))
 
     allc = [c for _, _, v in spaces for c in v]
     order = list(range(len(allc)))
     random.Random(ctx.seed + 1).shuffle(order)  # spread slow solvers over the chunks
     csize = 200
-    chunks = [[allc[i] for i in order[j:j + csize]] for j in range(0, len(order), csize)]
+    heavy = [i for i in order if _heavy(allc[i])]  # long single runs: one per chunk, started first
+    hist = [i for i in order if "history" in allc[i]]  # histories together: one fresh interpreter per chunk
+    rest = [i for i in order if not _heavy(allc[i]) and "history" not in allc[i]]
+    chunks = ([[allc[i]] for i in heavy] + [[allc[i] for i in hist[j:j + 12]] for j in range(0, len(hist), 12)]
+              + [[allc[i] for i in rest[j:j + csize]] for j in range(0, len(rest), csize)])
     results = pmap(work, chunks, chunksize=1)
     nont = set()
     per_solver_v: dict[str, int] = {}
-    for n, keys, viol in results:
+    by_ob: dict[str, list] = {}
+    cpu_by_family: dict[str, float] = {}
+    for n, keys, viol, cpu in results:
+        for k, v in cpu.items():
+            cpu_by_family[k] = cpu_by_family.get(k, 0.0) + v
         nont.update(keys)
         for ob, case, detail in viol:
             per_solver_v[ob] = per_solver_v.get(ob, 0) + 1
-            ctx.violation(ob, case, detail)
+            by_ob.setdefault(ob, []).append((len(canon(case)), canon(case), case, detail))
+    # report the smallest failing inputs of every obligation (the counts of all of them are in the evidence notes)
+    ranked = {ob: sorted(v, key=lambda t: t[:2])[:3] for ob, v in by_ob.items()}
+    for rank in range(3):
+        for ob in sorted(ranked):
+            if rank < len(ranked[ob]):
+                ctx.violation(ob, ranked[ob][rank][2], ranked[ob][rank][3])
     for name, desc, v in spaces:
         ctx.scope(name, cases=len(v), **desc)
-    samples = [allc[order[i]] for i in range(min(6, len(allc)))]
+    samples = [c for c in (allc[i] for i in order[:400]) if len(canon(c)) < 1500][:6]
     ctx.count(len(allc), nont, samples)
     ctx.notes["violations_by_obligation"] = dict(sorted(per_solver_v.items()))
     ctx.notes["cases_by_solver"] = {s: sum(1 for c in allc if c["solver"] == s) for s in FIRST + SECOND}
-    ctx.rule = ("one evaluation = one JSON case (solver, objective table/grid, callbacks, configuration, stop, sense) run three "
-                "times on the real solver (recorded run, identical re-run, mirrored run with -f and the other sense) and judged "
-                "against the statement; non-trivial = in the recorded trace some evaluation after the first best one is strictly "
-                "worse than it (returning the last/current point would be wrong); distinct = different case digest")
+    ctx.rule = ("one evaluation = one JSON case (solver, objective table/grid/separable function, callbacks, configuration, stop, "
+                "sense) run three times on the real solver (recorded run, identical re-run, mirrored run with -f and the other "
+                "sense; seedless cases: recorded run only; planted cases: one more dry run that locates the point to plant) and "
+                "judged against the statement, or one history (4-7 calls on shared argument objects, each call also run on fresh "
+                "objects and in a fresh interpreter); non-trivial = in the recorded trace (of some call, for a history) some "
+                "evaluation after the first best one is strictly worse than it (returning the last/current point would be "
+                "wrong); distinct = different case digest")
     ctx.assumptions += [
         "objective and callbacks are deterministic functions of their arguments and of their own call history (scripts), "
         "re-created for every run; callbacks never mutate an object they did not create ('in place' only on the fresh partial "
         "solution / child)",
-        "iteration limits >= 1 for anneal, tabu_search, lns, alns, differential_evolution, particle_swarm, nelder_mead "
-        "(max_iter = 0 raises UnboundLocalError there: nothing is returned, so the statement is silent); cooldown >= 1; "
-        "n_initial >= 1; non-empty population; lo <= hi",
+        "iteration limits >= 1 in the exhaustive and random small-scope spaces, >= 0 in the option ladder; cooldown >= 1; "
+        "n_initial >= 1; non-empty population; lo <= hi (bayesian_opt: lo < hi); differential_evolution strategy x/k with at "
+        "least 2k+1 (best) / 2k+2 (rand) individuals; cooling rates <= 1; anneal min_temp > 0",
+        "history mode: between two calls the harness edits the shared argument objects (lists of bounds / start point / "
+        "population / operators / weights, the state objects of the ring, what the objective and the callbacks compute) in "
+        "place; during a call nothing but the solver and its callbacks touches them",
+        "planted best: the dry run and the judged run are the same deterministic computation up to the planted evaluation "
+        "(seeded / seedless-deterministic solvers only)",
         "initial populations no longer than the population size; 'not worse than the start' is asked for start points inside "
         "the bounds (points outside are moved by the solver before evaluation)",
         "objective values finite (the grid objective clamps |x_i| to 1e6 and maps nan to 0)",
@@ -765,14 +925,27 @@ def run(ctx: Ctx):
         "the iteration / evaluation counter only",
         "bounds clause only for the first group (differential_evolution, particle_swarm, bayesian_opt), as the statement says",
     ]
-    ctx.trusted += ["oracles/search_books.py (recording proxy, table/grid objectives, min over the trace, float ==, <=, unary -)"]
+    ctx.trusted += ["oracles/search_books.py (recording proxy, table/grid/separable objectives and their generators, min over the "
+                    "trace, float ==, <=, unary -)",
+                    "checks/search_round2.py (case generators only)"]
+    ctx.notes["solver_cpu_s_by_family"] = {k: round(v, 1) for k, v in sorted(cpu_by_family.items())}
+    ctx.notes["cases_by_family"] = dict(sorted(_count_families(allc).items()))
 
 
 def replay(rec):
     use_repo()
     case = rec["case"]
-    bad, nt = judge_case(case)
-    r = execute(case)
+    if "history" in case:
+        bad, nt = judge_history(case, fresh_process_summaries(case["history"]))
+        for k, st in enumerate(case["history"]):
+            print(f"  call #{k}: {canon(st)[:300]}")
+        r = {"error": "history"}
+    else:
+        bad, nt = judge_case(case)
+        if "plant" in case:
+            case = resolve_plant(case)
+            print(f"  planted: {case['obj']['pit']}")
+        r = execute(case)
     if "error" not in r:
         print(f"replay {case['solver']}: solution {r['solution']} objective {r['objective']!r} f(solution) {r['pure']!r} "
               f"iterations {r['iterations']} evaluations {r['evaluations']} calls {len(r['trace'])}")
@@ -783,3 +956,7 @@ def replay(rec):
     hit = [b for b in bad if b[0] == want] or bad
     print("replay:", "still violates" if hit else "no violation")
     return 1 if hit else 0
+
+
+if __name__ == "__main__":
+    _fresh_main()
